@@ -33,6 +33,7 @@ var genOpts = lm.GenOpts{MaxDepth: 4, Huge: true}
 
 type jcase struct {
 	chain     []lm.Step
+	decoys    [][]lm.Step // siblings derived from the same parents, never logged through
 	level     slog.Level
 	addSource bool
 	msg       string
@@ -47,7 +48,11 @@ func (c jcase) render() string {
 	if len(msg) > 80 {
 		msg = fmt.Sprintf("%s…(%d bytes)", msg[:80], len(msg))
 	}
-	return fmt.Sprintf("chain=%s level=%s addSource=%v direct=%v form=%d msg=%q attrs=%s", lm.RenderChain(c.chain), lm.LevelNames[c.level], c.addSource, c.direct, c.form, msg, lm.RenderNodes(c.attrs))
+	nd := 0
+	for _, d := range c.decoys {
+		nd += len(d)
+	}
+	return fmt.Sprintf("decoySiblings=%d chain=%s level=%s addSource=%v direct=%v form=%d msg=%q attrs=%s", nd, lm.RenderChain(c.chain), lm.LevelNames[c.level], c.addSource, c.direct, c.form, msg, lm.RenderNodes(c.attrs))
 }
 
 func needsEscape(s string) bool {
@@ -128,7 +133,7 @@ func run(c jcase) (msg string, payloadLen int) {
 	var file string
 	var line int
 	if c.direct {
-		dh := lm.DeriveHandler(h, c.chain)
+		dh := lm.DeriveHandlerWithDecoys(h, c.chain, c.decoys)
 		pc, f, l := lm.CallerPC()
 		file, line = f, l
 		r := slog.NewRecord(c.instant, c.level, c.msg, pc)
@@ -138,7 +143,7 @@ func run(c jcase) (msg string, payloadLen int) {
 		}
 		exp = append(exp, lm.EMember{Key: "time", Exp: lm.Exp{Kind: lm.ETime, T: c.instant}})
 	} else {
-		l := lm.Derive(logger.New(h), c.chain)
+		l := lm.DeriveWithDecoys(logger.New(h), c.chain, c.decoys)
 		before := time.Now()
 		file, line = lm.Emit(l, c.form, c.level, c.msg, c.attrs)
 		after := time.Now()
@@ -179,6 +184,9 @@ func genCase(t *rapid.T) jcase {
 	}
 	if c.direct {
 		c.instant = lm.GenInstant().Draw(t, "instant")
+	}
+	if len(c.chain) > 0 {
+		c.decoys = lm.GenDecoys(genOpts, len(c.chain)).Draw(t, "decoys")
 	}
 	return c
 }
